@@ -901,4 +901,47 @@ theorem encode_defined {α : Type} (encF : α → List Nat) (fields : α) (chunk
       subst hr
       exact ⟨by simp [frameTypeHeaders], ht t rfl⟩
 
+/-! ## Non-vacuity: the hypotheses are satisfiable by concrete, non-trivial values and the model
+computes the expected results on them. -/
+
+/-- declared 5, written as 2 + 3 with trailers: FIN; read with sizes 1,1,… : the 5 bytes, EOF, trailers. -/
+example :
+    let s := sendBody (α := Nat) 5 [[1, 2], [], [3, 4, 5]] (some 9)
+    s.ending = .fin ∧ s.frames = [.data [1, 2], .data [3, 4, 5], .headers 9] ∧
+    (BodyReader.mk0 5 s.frames s.ending).run [1, 1, 1, 1, 1, 1, 1, 1, 1] = ([1, 2, 3, 4, 5], some .eof, some 9) := by
+  decide
+
+/-- declared 5, only 4 supplied: RESET after the data; the reader ends in an error, never EOF. -/
+example :
+    let s := sendBody (α := Nat) 5 [[1, 2], [3, 4]] none
+    s.ending = .reset ∧ ((BodyReader.mk0 5 s.frames s.ending).run [9, 9, 9, 9]).2.1 = some .errReset := by
+  decide
+
+/-- raw peer: declared 3, DATA total 4 (longer) and declared 5, DATA total 4 (shorter). -/
+example :
+    ((BodyReader.mk0 (α := Nat) 3 [.data [1, 2], .unknown 33 [0], .data [3, 4]] .fin).run [8, 8, 8]).2.1 = some .errLong ∧
+    (BodyReader.mk0 (α := Nat) 5 [.data [1, 2], .data [3, 4]] .fin).run [8, 8, 8, 8] =
+      ([1, 2, 3, 4], some .errShort, none) := by
+  decide
+
+/-- responseWriter: Content-Length 3, the handler writes 2 + 2 bytes: the second write is trimmed. -/
+example :
+    respond (α := Nat) false 3 none [.write [1, 2], .write [3, 4]] none =
+      ([.respHeaders 200, .frame (.data [1, 2, 3]), .flush, .fin], [(2, .nil), (1, .contentLength)]) := by
+  decide
+
+/-- known finding `bodyless-response-content-length-read-error` on the model: 304 with Content-Length 10. -/
+example :
+    let evs := (respond (α := Nat) false 10 (some 304) [] none).1
+    evFrames evs = [] ∧ (recvBody (clientBodyKind 10 false 0) (evFrames evs) .fin [1]).2.1 = some .errShort := by
+  decide
+
+/-- byte level: HEADERS "h", DATA "ab", DATA "c", trailing HEADERS "t" (identity field codec). -/
+example :
+    encodeMsg (α := List Nat) id [104] [[97, 98], [99]] (some [116]) =
+      some [1, 1, 104, 0, 2, 97, 98, 0, 1, 99, 1, 1, 116] ∧
+    decodeMsg (α := List Nat) some [1, 1, 104, 0, 2, 97, 98, 0, 1, 99, 1, 1, 116] =
+      some ⟨[104], [97, 98, 99], some [116]⟩ := by
+  decide
+
 end NetVerif.Proofs.C34
